@@ -531,6 +531,11 @@ func (c *Client) monitor(ctx context.Context) {
 							subsToRepublish = nil
 							subsToRecreate = subIDs
 
+						case len(res.Results) != len(subIDs):
+							dlog.Printf("transfer subscriptions returned %d results for %d subscriptions. Recreating all subscriptions", len(res.Results), len(subIDs))
+							subsToRepublish = nil
+							subsToRecreate = subIDs
+
 						default:
 							// otherwise, try a republish for the subscriptions that were transferred
 							// and recreate the rest.
